@@ -17,7 +17,7 @@ pub proof fn lemma_cfg_p_ensure<'a>(st: CfgSt<'a>, subs: Map<Tid, Term<Sub>>, ti
     requires cfg_jt_in_p(st, subs), cfg_pair(subs, (tid, f.tid)), !st.jt.contains_key((tid, f.tid)) ==> cfg_has_block(subs, tid),
     ensures cfg_jt_in_p(cfg_ensure(st, subs, tid, f).0, subs),
 {
-    broadcast use axiom_cfg_find_block;
+    broadcast use lemma_cfg_find_block_ok;
     let r = cfg_ensure(st, subs, tid, f).0;
     assert forall |key: (Tid, Tid)| #[trigger] r.jt.contains_key(key) implies cfg_pair(subs, key) by {
         if !st.jt.contains_key(key) { assert(key == (tid, f.tid)); }
@@ -182,7 +182,7 @@ pub proof fn lemma_cfg_jtle_intra<'a>(st: CfgSt<'a>, subs: Map<Tid, Term<Sub>>, 
         st.nodes.len() <= cfg_intra(st, subs, source, tid, jump, uc).nodes.len(),
         forall |i: int| 0 <= i < st.nodes.len() ==> #[trigger] cfg_intra(st, subs, source, tid, jump, uc).nodes[i] == st.nodes[i],
 {
-    broadcast use axiom_cfg_find_block;
+    broadcast use lemma_cfg_find_block_ok;
 }
 
 pub proof fn lemma_cfg_jtle_indirect<'a>(st: CfgSt<'a>, subs: Map<Tid, Term<Sub>>, source: NodeIndex, jump: &'a Term<Jmp>, uc: Option<&'a Term<Jmp>>, targets: Seq<Tid>, n: int)
@@ -222,8 +222,8 @@ pub proof fn lemma_cfg_jtle_jump_edge<'a>(st: CfgSt<'a>, subs: Map<Tid, Term<Sub
             let targets = cfg_blk(st.nodes[source.i as int]).term.indirect_jmp_targets@;
             lemma_cfg_jtle_indirect(st, subs, source, jump, uc, targets, targets.len() as int);
         },
-        Jmp::Call { target, return_ } => { broadcast use axiom_cfg_find_block; },
-        Jmp::CallInd { target, return_ } => { broadcast use axiom_cfg_find_block; },
+        Jmp::Call { target, return_ } => { broadcast use lemma_cfg_find_block_ok; },
+        Jmp::CallInd { target, return_ } => { broadcast use lemma_cfg_find_block_ok; },
         Jmp::CallOther { description, return_ } => {},
         Jmp::Return(e) => {},
     }
@@ -392,7 +392,7 @@ pub proof fn lemma_cfg_l_ensure<'a>(st: CfgSt<'a>, subs: Map<Tid, Term<Sub>>, ti
         cfg_nbl_all(cfg_ensure(st, subs, tid, f).0) == cfg_nbl_all(st),
         cfg_ensure(st, subs, tid, f).0.nodes[cfg_ensure(st, subs, tid, f).1.i as int] == cfg_ltarget(subs, f, tid),
 {
-    broadcast use axiom_cfg_find_block;
+    broadcast use lemma_cfg_find_block_ok;
     let fb = cfg_find_block::<'a>(subs, tid)->Some_0;
     if st.jt.contains_key((tid, f.tid)) {
         let v = st.jt[(tid, f.tid)];
